@@ -164,6 +164,7 @@ TraceRet ==
 
 TraceApi ==
   /\ Ev.ev = "api"
+  /\ "skipped" \notin DOMAIN Ev          \* (a run the harness gave up on is not an observation)
   /\ (JudgeOnly \/ done)
   /\ rr > 0
   /\ C04onApi /\ C06onApi
